@@ -155,8 +155,13 @@ def check_case(case):
     sa = run(spec).amplitude[0]
     sa0 = run(dict(spec, azimuth=0.0), orient_to=az).amplitude[0]
 
+    nfft_used = spec["_nfft"]
+    dyn = oracle.dynamic_range((ns, ew, vt), dt, spec["width"], nfft_used, spec["op"], spec["bw"], np.array(spec["fcs"]))
+
     def pclose(x, y, rtol=1e-9):
-        return close(x, y, rtol=rtol, atol=1e-10 * the)
+        x, y = np.asarray(x, dtype=float), np.asarray(y, dtype=float)
+        tol = (rtol + 1e-13 * dyn) * np.maximum(np.abs(x), np.abs(y)) + 1e-10 * the
+        return bool(np.all(np.abs(x - y) <= tol))
     if not pclose(sa, sa0, rtol=1e-9):
         raise Violation(f"single-azimuth HVSR at {az} differs from the HVSR of the north component after orienting the sensor to {az} "
                         f"(rel diff {rel_err(sa, sa0):.3g})")
